@@ -112,6 +112,14 @@ CHECKS.update({
                     "hang detection), and a follow-up calibrate(1) must work. Rediscovered and fixed the missing try/finally around the "
                     "scheduler session and the particle-swarm crash after a failed first batch.",
             "note": "n_jobs=1; one fault per run; a hang counts only when a thread started by the call is demonstrably alive."},
+    "C10": {"category": "exploration", "technique": "systematic schedule enumeration (stateless DFS over choice prefixes) of the two real threads under a deterministic controller that owns every synchronisation point; PBT draws scenarios and choice vectors for larger bounds; reference model for rewards and learn/run correspondence",
+            "text": "The real calibrate loop and the real agent loop run as OS threads whose queue/flag/thread operations are schedule "
+                    "points; for the small session lists of each tier EVERY schedule is executed (tens of thousands), larger scenarios "
+                    "get Hypothesis-drawn choice vectors; each run is judged on learn/run correspondence, rewards, leftovers, deadlock "
+                    "(detected structurally) and cross-schedule equality of the outcome. Rediscovered the session-end protocol defect "
+                    "in every schedule (fixed).",
+            "note": "interleavings at synchronisation operations only; bounded runs (safety, not liveness); not a proof."},
 })
-NOT_APPLICABLE = {p: "check not built yet in this session (design in DESIGN.md section 3); will be claimed once its harness exists"
+NOT_APPLICABLE = {}
+_unused = {p: "check not built yet in this session (design in DESIGN.md section 3); will be claimed once its harness exists"
                   for p in ALL if p not in CHECKS}
